@@ -75,13 +75,7 @@ impl RuntimeSettings {
         for component in path.iter() {
             // &OsStr is dumb so we convert each component into &str, hopefully the conversion isn't noticeable on runtime
             if let Some(c) = component.to_str() {
-                if c.starts_with('{') && c.ends_with('}') {
-                    // left/{thingy}/right
-
-                    let custom_option = &c[1..c.len() - 1];
-
-                    new_path.push(self.get_custom_option_value_for_path(custom_option, path)?);
-                } else if !c.contains('{') || !c.contains('}') {
+                if !c.contains('{') || !c.contains('}') {
                     // No replacement at all
                     new_path.push(component);
                 } else {
